@@ -16,8 +16,9 @@ CONSTANTS
   BugDoubleStore = FALSE
   BugNoCloseUnclean = FALSE
   FixStreamCtxStore = TRUE
+  BugKeepAbandoned = FALSE
   Emit = FALSE
   WarmChoices = {FALSE}
-INVARIANTS TypeOK StreamStoreExactlyOnce SessionIsolated Exclusive RejectAfterRelease MarkedWhenReleased CleanOnReturn
+INVARIANTS TypeOK StreamStoreExactlyOnce SessionIsolated Exclusive RejectAfterRelease MarkedWhenReleased CleanOnReturn NoForeignInFlight
   UncleanClosedBeforeStore NoLeak StreamBookkeeping
 CHECK_DEADLOCK FALSE
